@@ -8,24 +8,45 @@ Property theorems only (helper lemmas live in Proofs/).  The model (Model/Ser.le
 
 Quantifiers: every value `x` of each serializable type — integers and pairs, vectors of them, byte vectors,
 strings, optional values, raw / integer vectors, rank and select supports, plain bitvectors with any of the
-8 subsets of support structures — that satisfies the type's representation invariant (stated in each
-theorem: lengths fit a `usize`, the raw vector has exactly ⌈len/64⌉ words with a zero tail, …; these hold
+8 subsets of support structures, sparse / run-length vectors, wavelet matrix and its core — that satisfies the
+type's representation invariant (stated in each theorem: lengths fit a `usize`, the raw vector has exactly ⌈len/64⌉ words with a zero tail, …; these hold
 of every value the API can produce), and every continuation `rest` of the stream (so: every concatenation).
-The codecs have no arithmetic mode: no `Mode` parameter occurs in serialization.
+The codecs have no arithmetic mode — no `Mode` parameter occurs in serialization — except `rlC m`, whose loader
+rebuilds the sample indexes with the mode's arithmetic; its theorems hold for both modes.
 
 Each `…_roundtrip` theorem says: loading what was serialized, followed by anything, yields **the same value**
 (Lean equality, hence it answers every query as `x` does — `loaded_bit_vector_answers_as_original` spells
 that out) and **exactly the rest** of the stream (so exactly `size_in_elements(x)` elements = `8 ×` that many
 bytes are consumed), together with the size predicted from the parameters alone.
 
-**Partial** (see the end of the file): the sparse vector, the wavelet-matrix core and the wavelet matrix are
-proven for every value their builders produce (under file-size side conditions); the run-length vector `rlC`
-is covered by correspondence testing only.
+**Composite structures** (sparse vector, run-length vector, wavelet-matrix core, wavelet matrix; lemmas in
+Proofs/Codec2).  The same law is proven for **every value satisfying the serialization invariant of its type**:
+ * `Codec2.sparseWF s`: `high` already carries the select / select_zero supports that `load` enables, `high` and
+   `low` are serializable (`bitVectorWF`, `intVecWF`), `low.len = high.count_ones`,
+   `high.len = low.len + buckets(len, low.width)` (the two checks of `SparseVector::load`), `len < 2^64`;
+ * `Codec2.wmCoreWF c`: 1..64 levels, each a serializable bitvector carrying all three supports, all of one length;
+ * `Codec2.wmWF w`: `wmCoreWF w.data`, `w.len` = the length of the levels `< 2^64`, `first` serializable;
+ * `Codec2.rlWF m v` (mode `m`): `samples`, `data` serializable, one sample pair per 64-unit block of `data`,
+   `ones ≤ len < 2^64`, ones ≤ bits at every block start, and the three sample indexes (which are **not stored**)
+   are what `SampleIndex::new` builds from the stored samples.  `Codec2.rlWFg m` is the weaker form without the
+   "no subtraction wraps" clauses; it is also *necessary* for a round trip (`run_length_vector_invariant_necessary`).
+Everything the builders build satisfies the invariant (`Codec2.ofValues_sparseWF` / `sparse_ofValues_lawful`,
+`ofValues_wmCoreWF`, `ofValues_wmWF` / `wm_ofValues_lawful`, `build_rlWF` / `build_roundtrip` for every accepted
+call history of the `RLBuilder`), under file-size side conditions only (`hhigh`, `hlow`, `hfirst`, `hsize`).
+For loaded values `Codec2` has only `sparseC_load_shape` (clauses 1, 4, 5 of `sparseWF`) and
+`wmCoreC_load_shape` (the `enableAll` clause of `wmCoreWF`); there is **no** theorem "whatever `load` returns on an
+arbitrary accepted file satisfies the full invariant" for any of the four codecs (nor for `wmC`, `rlC` any shape
+theorem), and it cannot be assembled from the parts: the primitive loaders do not check the representation
+invariant of what they return — already `rawVecC.load` accepts a file whose value violates `RawVec.WF`, which
+all four invariants require of their parts (`example` at the end of the file).  On a *serialization* the loaded
+value is the original, hence satisfies the invariant.
+No `_partial` theorem remains.
 -/
 import Sds.Proofs.Codec
 import Sds.Proofs.Supports
 import Sds.Proofs.Mapper
 import Sds.Proofs.Glue2
+import Sds.Proofs.Codec2
 
 namespace Sds.C06
 open Sds Outcome
@@ -189,11 +210,108 @@ theorem sequence_of_lawful_is_lawful {α β} (c1 : Codec α) (c2 : Codec β) (W1
     (∀ p, (seqC c1 c2).size p = c1.size p.1 + c2.size p.2) :=
   ⟨seqC_lawful h1 h2, fun p => by simp [Codec.size, seqC]⟩
 
-/-! ### composite structures: sparse vector, wavelet-matrix core, wavelet matrix
+/-! ### composite structures: sparse vector, run-length vector, wavelet-matrix core, wavelet matrix
 
-Proven for every value the builders produce, under the side condition that the parts fit a `usize`-addressed
-file (their length fields are `usize`): `hhigh`, `hlow` for the sparse vector, `hfirst` for the `first` array of
-the wavelet matrix (`max V < 2^58`). -/
+First for **every value satisfying the serialization invariant** of its type (`Codec2.sparseWF`,
+`Codec2.wmCoreWF`, `Codec2.wmWF`, `Codec2.rlWF m` / `Codec2.rlWFg m`; see the header), then for everything the
+builders build.  Each `…_roundtrip_wf` theorem gives: the element-level round trip with arbitrary trailing data,
+the byte-level round trip (exactly `8 * size` bytes written, exactly those consumed: what is left is `rest`), and
+`size_in_elements` as the sum of the sizes of the parts. -/
+
+/-- the four composite codecs obey the codec law on their invariants, so every generic statement above
+(`bytes_roundtrip_exact`, `back_to_back`, `sequence_of_lawful_is_lawful`, `option_roundtrip`) applies to them,
+in any order and mixed with the other types; `rlWF m → rlWFg m` (`Codec2.rlWF.general`) -/
+theorem composite_codecs_lawful (m : Mode) :
+    Lawful sparseC Codec2.sparseWF ∧ Lawful wmCoreC Codec2.wmCoreWF ∧ Lawful wmC Codec2.wmWF ∧
+    Lawful (rlC m) (Codec2.rlWF m) ∧ Lawful (rlC m) (Codec2.rlWFg m) ∧
+    (∀ v, Codec2.rlWF m v → Codec2.rlWFg m v) :=
+  ⟨Codec2.sparseC_lawful, Codec2.wmCoreC_lawful, Codec2.wmC_lawful, Codec2.rlC_lawful m, Codec2.rlC_lawful_g m,
+    fun _ h => h.general⟩
+
+/-- `SparseVector`, every value satisfying `sparseWF` -/
+theorem sparse_vector_roundtrip_wf (s : Sparse) (hs : Codec2.sparseWF s) (rest : Elems) :
+    sparseC.load (sparseC.ser s ++ rest) = ok (s, rest) ∧
+    sparseC.load (ofBytes (toBytes (sparseC.ser s) ++ toBytes rest)) = ok (s, rest) ∧
+    (toBytes (sparseC.ser s) ++ toBytes rest).length = 8 * sparseC.size s + 8 * rest.length ∧
+    sparseC.size s = 1 + bitVectorC.size s.high + intVecC.size s.low :=
+  have h := bytes_roundtrip_exact sparseC _ Codec2.sparseC_lawful s hs rest
+  ⟨Codec2.sparseC_lawful.roundtrip s rest hs, h.1, h.2, Codec2.sparseC_size s⟩
+
+/-- `WMCore`, every value satisfying `wmCoreWF` -/
+theorem wavelet_matrix_core_roundtrip_wf (c : WMCore) (hc : Codec2.wmCoreWF c) (rest : Elems) :
+    wmCoreC.load (wmCoreC.ser c ++ rest) = ok (c, rest) ∧
+    wmCoreC.load (ofBytes (toBytes (wmCoreC.ser c) ++ toBytes rest)) = ok (c, rest) ∧
+    (toBytes (wmCoreC.ser c) ++ toBytes rest).length = 8 * wmCoreC.size c + 8 * rest.length ∧
+    wmCoreC.size c = 1 + (c.levels.toList.map bitVectorC.size).sum :=
+  have h := bytes_roundtrip_exact wmCoreC _ Codec2.wmCoreC_lawful c hc rest
+  ⟨Codec2.wmCoreC_lawful.roundtrip c rest hc, h.1, h.2, Codec2.wmCoreC_size c⟩
+
+/-- `WaveletMatrix`, every value satisfying `wmWF` -/
+theorem wavelet_matrix_roundtrip_wf (w : WM) (hw : Codec2.wmWF w) (rest : Elems) :
+    wmC.load (wmC.ser w ++ rest) = ok (w, rest) ∧
+    wmC.load (ofBytes (toBytes (wmC.ser w) ++ toBytes rest)) = ok (w, rest) ∧
+    (toBytes (wmC.ser w) ++ toBytes rest).length = 8 * wmC.size w + 8 * rest.length ∧
+    wmC.size w = 1 + wmCoreC.size w.data + intVecC.size w.first :=
+  have h := bytes_roundtrip_exact wmC _ Codec2.wmC_lawful w hw rest
+  ⟨Codec2.wmC_lawful.roundtrip w rest hw, h.1, h.2, Codec2.wmC_size w⟩
+
+/-- `RLVector`, both modes, every value satisfying `rlWFg m` (hence every value satisfying `rlWF m`): the three
+sample indexes are not stored, `load` rebuilds them, and the loaded value is **equal** to the original, indexes
+included.  Size: two counters, two integer vectors = 10 elements + the words of both. -/
+theorem run_length_vector_roundtrip_wf (m : Mode) (v : RL) (hv : Codec2.rlWFg m v) (rest : Elems) :
+    (rlC m).load ((rlC m).ser v ++ rest) = ok (v, rest) ∧
+    (rlC m).load (ofBytes (toBytes ((rlC m).ser v) ++ toBytes rest)) = ok (v, rest) ∧
+    (toBytes ((rlC m).ser v) ++ toBytes rest).length = 8 * (rlC m).size v + 8 * rest.length ∧
+    (rlC m).size v = 2 + intVecC.size v.samples + intVecC.size v.data ∧
+    (rlC m).size v = 10 + v.samples.data.data.size + v.data.data.data.size :=
+  have h := bytes_roundtrip_exact (rlC m) _ (Codec2.rlC_lawful_g m) v hv rest
+  ⟨(Codec2.rlC_lawful_g m).roundtrip v rest hv, h.1, h.2, Codec2.rlC_size m v, Codec2.rlC_size_words m v⟩
+
+/-- for the run-length vector the invariant is also **necessary**: a vector whose counters and integer vectors
+are serializable round-trips (with some continuation) only if it satisfies `rlWFg m` -/
+theorem run_length_vector_invariant_necessary (m : Mode) (v : RL) (r : Elems) (hs : intVecWF v.samples)
+    (hd : intVecWF v.data) (hlen : v.len < 2 ^ 64) (hones : v.ones < 2 ^ 64)
+    (h : (rlC m).load ((rlC m).ser v ++ r) = ok (v, r)) : Codec2.rlWFg m v :=
+  Codec2.rlWFg_of_roundtrip m hs hd hlen hones h
+
+/-- what the loaders return, on **any** input they accept, has the derived parts the invariants ask for: a
+loaded sparse vector has its select supports enabled and passes the two consistency checks (clauses 1, 4, 5 of
+`sparseWF`); every level of a loaded wavelet-matrix core carries all three supports (the `enableAll` clause of
+`wmCoreWF`) -/
+theorem loaded_composites_have_shape :
+    (∀ (es r : Elems) (s : Sparse), sparseC.load es = ok (s, r) →
+      s.high.enableSelect.enableSelectZero = s.high ∧ s.low.len = s.high.countOnes ∧
+      s.high.len = s.low.len + Sparse.getBuckets s.len s.low.width) ∧
+    (∀ (es r : Elems) (c : WMCore), wmCoreC.load es = ok (c, r) →
+      ∀ b, b ∈ c.levels.toList → b.enableAll = b) :=
+  ⟨fun _ _ _ h => Codec2.sparseC_load_shape h, fun _ _ _ h => Codec2.wmCoreC_load_shape h⟩
+
+/-- **back to back**: a sparse vector, a run-length vector and a wavelet matrix in one stream — the first load
+leaves exactly the serializations of the other two (and what follows), and loading the three in sequence returns
+the three values and the rest (any other order / selection: `back_to_back` with `composite_codecs_lawful`) -/
+theorem composite_back_to_back (m : Mode) (s : Sparse) (v : RL) (w : WM) (rest : Elems)
+    (hs : Codec2.sparseWF s) (hv : Codec2.rlWF m v) (hw : Codec2.wmWF w) :
+    sparseC.load (sparseC.ser s ++ (rlC m).ser v ++ wmC.ser w ++ rest) =
+      ok (s, (rlC m).ser v ++ wmC.ser w ++ rest) ∧
+    (do let (a, r1) ← sparseC.load (sparseC.ser s ++ (rlC m).ser v ++ wmC.ser w ++ rest)
+        let (b, r2) ← (rlC m).load r1
+        let (c, r3) ← wmC.load r2
+        pure ((a, b, c), r3)) = ok ((s, v, w), rest) :=
+  ⟨Codec2.composite_load_concat m s v w rest hs, Codec2.composite_load_seq m s v w rest hs hv hw⟩
+
+/-- … and the three as one record form a lawful codec whose size is the sum of the three sizes -/
+theorem composite_sequence_lawful (m : Mode) :
+    Lawful (seqC sparseC (seqC (rlC m) wmC))
+      (fun p => Codec2.sparseWF p.1 ∧ Codec2.rlWF m p.2.1 ∧ Codec2.wmWF p.2.2) ∧
+    (∀ p, (seqC sparseC (seqC (rlC m) wmC)).size p =
+      sparseC.size p.1 + ((rlC m).size p.2.1 + wmC.size p.2.2)) :=
+  ⟨Codec2.composite_lawful m, fun p => by simp [Codec.size, seqC]⟩
+
+/-! #### everything the builders build
+
+The builder outputs satisfy the invariants under the side condition that the parts fit a `usize`-addressed file
+(their length fields are `usize`): `hhigh`, `hlow` for the sparse vector, `hfirst` for the `first` array of the
+wavelet matrix (`max V < 2^58`), `hsize` for the two integer vectors of the run-length vector. -/
 
 /-- `SparseVector` (set or multiset mode, every admissible low width) -/
 theorem sparse_vector_roundtrip (w n : Nat) (multi : Bool) (P : List Nat) (hw1 : 1 ≤ w)
@@ -202,58 +320,87 @@ theorem sparse_vector_roundtrip (w n : Nat) (multi : Bool) (P : List Nat) (hw1 :
     (hhigh : P.length + Sparse.getBuckets n w < 2 ^ 63) (hlow : P.length * w < 2 ^ 64) :
     ∃ s, Sparse.ofValues w n multi P = ok s ∧
       (∀ rest, sparseC.load (sparseC.ser s ++ rest) = ok (s, rest)) ∧
-      sparseC.size s = 1 + bitVectorC.size s.high + intVecC.size s.low := by
-  obtain ⟨s, raw, h1, he, hwf, hrl, hones, hhi, hlwf⟩ :=
-    ofValues_shape w n multi P hw1 hw hn hm hsorted hbound
-  obtain ⟨s', h1', _, hload⟩ :=
-    sparse_load_any_supports w n multi P hw1 hw hn hm hsorted hbound hhigh hlow
-  rw [h1] at h1'; cases h1'
-  refine ⟨s, h1, fun rest => ?_, ?_⟩
-  · have h := hload true true rest
-    have e : SupportProofs.enableSome false true true (BitVector.ofRaw s.high.data) = s.high := by
-      have hd : s.high.data = raw := by rw [hhi]; simp; rfl
-      rw [hd, hhi]; rfl
-    rw [e, ← he.len_eq] at h
-    exact h
-  · simp [Codec.size, sparseC]; omega
+      sparseC.size s = 1 + bitVectorC.size s.high + intVecC.size s.low ∧
+      Codec2.sparseWF s := by
+  obtain ⟨s, h1, _, hwf⟩ := Codec2.ofValues_sparseWF w n multi P hw1 hw hn hm hsorted hbound hhigh hlow
+  exact ⟨s, h1, fun rest => Codec2.sparseC_lawful.roundtrip s rest hwf, Codec2.sparseC_size s, hwf⟩
 
 /-- `WMCore` -/
 theorem wavelet_matrix_core_roundtrip (V : List Nat) (hlen : V.length < 2 ^ 63) (rest : Elems) :
     wmCoreC.load (wmCoreC.ser (WMCore.ofValues V) ++ rest) = ok (WMCore.ofValues V, rest) ∧
     wmCoreC.size (WMCore.ofValues V) =
-      1 + ((WMCore.ofValues V).levels.toList.map bitVectorC.size).sum := by
-  refine ⟨wmCore_roundtrip V hlen rest, ?_⟩
-  simp only [Codec.size, wmCoreC, List.length_cons, List.length_flatMap]
-  show _ = 1 + (List.map (fun a => (bitVectorC.ser a).length) _).sum
-  omega
+      1 + ((WMCore.ofValues V).levels.toList.map bitVectorC.size).sum ∧
+    Codec2.wmCoreWF (WMCore.ofValues V) :=
+  have hwf := Codec2.ofValues_wmCoreWF V hlen
+  ⟨Codec2.wmCoreC_lawful.roundtrip _ rest hwf, Codec2.wmCoreC_size _, hwf⟩
 
 /-- `WaveletMatrix` -/
 theorem wavelet_matrix_roundtrip (V : List Nat) (hV : ∀ v, v ∈ V → v < 2 ^ 64) (hlen : V.length < 2 ^ 63)
     (hfirst : (V.foldl max 0 + 1) * 64 < 2 ^ 64) (rest : Elems) :
     wmC.load (wmC.ser (WM.ofValues V) ++ rest) = ok (WM.ofValues V, rest) ∧
     wmC.size (WM.ofValues V) =
-      1 + wmCoreC.size (WM.ofValues V).data + intVecC.size (WM.ofValues V).first := by
-  refine ⟨wm_roundtrip V hV hlen hfirst rest, ?_⟩
-  simp [Codec.size, wmC]; omega
+      1 + wmCoreC.size (WM.ofValues V).data + intVecC.size (WM.ofValues V).first ∧
+    Codec2.wmWF (WM.ofValues V) :=
+  have hwf := Codec2.ofValues_wmWF V hV hlen hfirst
+  ⟨Codec2.wmC_lawful.roundtrip _ rest hwf, Codec2.wmC_size _, hwf⟩
 
-/-! **Partial.**  Full intended statement: for `c ∈ {sparseC, rlC, wmCoreC, wmC}` and every value `x` of the
-type, `c.load (c.ser x ++ rest) = ok (x, rest)`, with `c.size x` the sum of the sizes of the parts.
-Proven: the three theorems above, bundled below.
-Missing (covered by correspondence testing only):
- * the run-length vector `rlC`: its loader is modelled and exercised by the driver; no round-trip theorem;
- * values of the three proven types that satisfy the loader's checks but are not produced by the builders
-   (the theorems quantify over builder inputs, not over an invariant on `Sparse` / `WM`). -/
-theorem composite_structures_roundtrip_partial (w n : Nat) (multi : Bool) (P : List Nat) (hw1 : 1 ≤ w)
-    (hw : w ≤ 63) (hn : n < 2 ^ 64) (hm : P.length < 2 ^ 63)
+/-- `RLVector`, both modes: the vector converted (`From<RLBuilder>`) from the builder reached by **any accepted
+history** of `try_set` / `set_len` / `set_bit` calls on an empty builder (`callArgsOk`: arguments are `usize`s) -/
+theorem run_length_vector_roundtrip (m : Mode) (calls : List RL.BCall) (hc : ∀ c ∈ calls, RL.callArgsOk c)
+    (b : RLBuilder) (hb : RL.runBCalls m calls {} = ok b) (v : RL) (hv : RL.ofBuilder m b = ok v)
+    (hsize : 128 * v.samples.len < 2 ^ 64) (rest : Elems) :
+    (rlC m).load ((rlC m).ser v ++ rest) = ok (v, rest) ∧
+    (rlC m).size v = 10 + v.samples.data.data.size + v.data.data.data.size ∧
+    Codec2.rlWF m v :=
+  have hwf := Codec2.build_rlWF m calls hc b hb v hv hsize
+  ⟨(Codec2.rlC_lawful m).roundtrip v rest hwf, Codec2.rlC_size_words m v, hwf⟩
+
+/-- `hsize` stated on the builder: each block takes 256 data bits and two samples, the final `flush` adds at
+most one block -/
+theorem run_length_vector_size_condition (m : Mode) (b : RLBuilder) (v : RL) (hv : RL.ofBuilder m b = ok v)
+    (hsize : 256 * (b.samples.size + 1) < 2 ^ 64) : 128 * v.samples.len < 2 ^ 64 :=
+  Codec2.ofBuilder_size m hv hsize
+
+/-- the four composite types together (this replaces the former `composite_structures_roundtrip_partial`):
+**every** value satisfying the invariant of its type, any continuation, both modes for the run-length vector -/
+theorem composite_structures_roundtrip (m : Mode) (s : Sparse) (c : WMCore) (w : WM) (v : RL)
+    (hs : Codec2.sparseWF s) (hc : Codec2.wmCoreWF c) (hw : Codec2.wmWF w) (hv : Codec2.rlWF m v)
+    (rest : Elems) :
+    sparseC.load (sparseC.ser s ++ rest) = ok (s, rest) ∧
+    wmCoreC.load (wmCoreC.ser c ++ rest) = ok (c, rest) ∧
+    wmC.load (wmC.ser w ++ rest) = ok (w, rest) ∧
+    (rlC m).load ((rlC m).ser v ++ rest) = ok (v, rest) :=
+  ⟨Codec2.sparseC_lawful.roundtrip s rest hs, Codec2.wmCoreC_lawful.roundtrip c rest hc,
+    Codec2.wmC_lawful.roundtrip w rest hw, (Codec2.rlC_lawful m).roundtrip v rest hv⟩
+
+/-- … and for the builder outputs, under the hypotheses of the four builder-level theorems -/
+theorem built_composite_structures_roundtrip (m : Mode) (w n : Nat) (multi : Bool) (P : List Nat)
+    (hw1 : 1 ≤ w) (hw : w ≤ 63) (hn : n < 2 ^ 64) (hm : P.length < 2 ^ 63)
     (hsorted : if multi then sortedLe P = true else sortedStrict P = true) (hbound : ∀ p ∈ P, p < n)
     (hhigh : P.length + Sparse.getBuckets n w < 2 ^ 63) (hlow : P.length * w < 2 ^ 64)
     (V : List Nat) (hV : ∀ v, v ∈ V → v < 2 ^ 64) (hlen : V.length < 2 ^ 63)
-    (hfirst : (V.foldl max 0 + 1) * 64 < 2 ^ 64) (rest : Elems) :
+    (hfirst : (V.foldl max 0 + 1) * 64 < 2 ^ 64)
+    (calls : List RL.BCall) (hc : ∀ c ∈ calls, RL.callArgsOk c)
+    (b : RLBuilder) (hb : RL.runBCalls m calls {} = ok b) (v : RL) (hv : RL.ofBuilder m b = ok v)
+    (hsize : 128 * v.samples.len < 2 ^ 64) (rest : Elems) :
     (∃ s, Sparse.ofValues w n multi P = ok s ∧ sparseC.load (sparseC.ser s ++ rest) = ok (s, rest)) ∧
     wmCoreC.load (wmCoreC.ser (WMCore.ofValues V) ++ rest) = ok (WMCore.ofValues V, rest) ∧
-    wmC.load (wmC.ser (WM.ofValues V) ++ rest) = ok (WM.ofValues V, rest) := by
+    wmC.load (wmC.ser (WM.ofValues V) ++ rest) = ok (WM.ofValues V, rest) ∧
+    (rlC m).load ((rlC m).ser v ++ rest) = ok (v, rest) := by
   obtain ⟨s, h1, h2, _⟩ := sparse_vector_roundtrip w n multi P hw1 hw hn hm hsorted hbound hhigh hlow
-  exact ⟨⟨s, h1, h2 rest⟩, wmCore_roundtrip V hlen rest, wm_roundtrip V hV hlen hfirst rest⟩
+  exact ⟨⟨s, h1, h2 rest⟩, (wavelet_matrix_core_roundtrip V hlen rest).1,
+    (wavelet_matrix_roundtrip V hV hlen hfirst rest).1,
+    (run_length_vector_roundtrip m calls hc b hb v hv hsize rest).1⟩
+
+/-! **What is not proven** (no `_partial` theorem remains in this file).  The statements above quantify over the
+invariants, not over "every value of the Lean type": a `Sparse` / `WM` / `RL` record that violates its invariant
+(e.g. an `RL` whose `rankIndex` field is not the index of its samples) is not a value the library can hold, and
+does not round-trip.  `Codec2` proves *builder outputs ⊆ invariant* and the `…_load_shape` clauses, but **not**
+"every value a loader returns on an arbitrary accepted file satisfies the full invariant", and that cannot be
+assembled from the parts: the primitive loaders do not check the representation invariant of what they return
+(the padding bits of a raw vector — see the `example` at the end — which all four invariants require to be zero),
+exactly as the Rust loaders do not.  Such files are outside C06 (they are not serializations of a value); files
+that follow the format document are the subject of C07. -/
 
 /-! ### non-vacuity: concrete values meeting the hypotheses -/
 
@@ -265,5 +412,56 @@ example : (IntVec.ofList 5 [1, 2, 3]).WF := by decide
 /-- one fully concrete round trip (a three-bit vector, followed by two more elements) -/
 example : rawVecC.load (rawVecC.ser (RawVec.ofBits [true, false, true]) ++ [7, 9]) =
     ok (RawVec.ofBits [true, false, true], [7, 9]) := by decide
+
+/-- a file the raw-vector loader accepts although the value violates the representation invariant (bit 3 set in
+a 3-bit vector): why "whatever a loader returns satisfies the invariant" is not claimed (see above) -/
+example : rawVecC.load [3, 1, 13] = ok (⟨3, #[13]⟩, []) ∧ ¬ (⟨3, #[13]⟩ : RawVec).WF := by decide
+
+/-- a sparse vector meeting `sparseWF`: 3 of 10 positions set, low width 2 (set mode), and a multiset -/
+example : ∃ s, Sparse.ofValues 2 10 false [0, 5, 9] = ok s ∧ Codec2.sparseWF s :=
+  have ⟨s, h, _, hwf⟩ := Codec2.ofValues_sparseWF 2 10 false [0, 5, 9] (by decide) (by decide) (by decide)
+    (by decide) (by decide) (by decide) (by decide) (by decide)
+  ⟨s, h, hwf⟩
+example : ∃ s, Sparse.ofValues 2 10 true [0, 5, 5, 9] = ok s ∧ Codec2.sparseWF s :=
+  have ⟨s, h, _, hwf⟩ := Codec2.ofValues_sparseWF 2 10 true [0, 5, 5, 9] (by decide) (by decide) (by decide)
+    (by decide) (by decide) (by decide) (by decide) (by decide)
+  ⟨s, h, hwf⟩
+/-- … its 41-element file followed by two more elements, loaded by evaluation -/
+example : (do let s ← Sparse.ofValues 2 10 false [0, 5, 9]
+              let (s', r) ← sparseC.load (sparseC.ser s ++ [7, 9])
+              return (decide (s' = s), r, sparseC.size s)) = ok (true, [7, 9], 41) := by decide +kernel
+
+/-- a wavelet matrix (and its core) meeting `wmWF` / `wmCoreWF`: four values of width 2 -/
+example : Codec2.wmWF (WM.ofValues [3, 1, 0, 2]) ∧ Codec2.wmCoreWF (WMCore.ofValues [3, 1, 0, 2]) :=
+  ⟨Codec2.ofValues_wmWF _ (by decide) (by decide) (by decide), Codec2.ofValues_wmCoreWF _ (by decide)⟩
+/-- … the 77-element file of the core followed by two more elements, loaded by evaluation; the whole matrix by
+the theorem (`start_offsets` sorts by well-founded recursion, which the kernel does not evaluate) -/
+example : wmCoreC.load (wmCoreC.ser (WMCore.ofValues [3, 1, 0, 2]) ++ [7, 9]) =
+    ok (WMCore.ofValues [3, 1, 0, 2], [7, 9]) ∧ wmCoreC.size (WMCore.ofValues [3, 1, 0, 2]) = 77 := by
+  decide +kernel
+example : wmC.load (wmC.ser (WM.ofValues [3, 1, 0, 2]) ++ [7, 9]) = ok (WM.ofValues [3, 1, 0, 2], [7, 9]) :=
+  (wavelet_matrix_roundtrip [3, 1, 0, 2] (by decide) (by decide) (by decide) [7, 9]).1
+
+/-- a run-length vector meeting `rlWF`, both modes: the accepted history `set_len(10); try_set(10, 5)` — all
+hypotheses of `run_length_vector_roundtrip` hold of it -/
+example (m : Mode) : ∃ b v, (∀ c ∈ [RL.BCall.setLen 10, .set 10 5], RL.callArgsOk c) ∧
+    RL.runBCalls m [.setLen 10, .set 10 5] {} = ok b ∧ RL.ofBuilder m b = ok v ∧
+    128 * v.samples.len < 2 ^ 64 ∧ Codec2.rlWF m v := by
+  have hc : ∀ c ∈ [RL.BCall.setLen 10, .set 10 5], RL.callArgsOk c := by
+    intro c hc; simp at hc; rcases hc with rfl | rfl <;> simp [RL.callArgsOk, U64]
+  have h : (do let b ← RL.runBCalls m [.setLen 10, .set 10 5] {}
+               let v ← RL.ofBuilder m b
+               return decide (128 * v.samples.len < 2 ^ 64)) = ok true := by cases m <;> decide +kernel
+  obtain ⟨b, hb, h⟩ := bind_eq_ok h
+  obtain ⟨v, hv, h⟩ := bind_eq_ok h
+  have hs : 128 * v.samples.len < 2 ^ 64 := by
+    injection h with h; exact of_decide_eq_true h
+  exact ⟨b, v, hc, hb, hv, hs, Codec2.build_rlWF m _ hc b hb v hv hs⟩
+/-- … its 12-element file followed by two more elements, loaded by evaluation in both modes -/
+example : ∀ m : Mode, (do let b ← RL.runBCalls m [.setLen 10, .set 10 5] {}
+                          let v ← RL.ofBuilder m b
+                          let (v', r) ← (rlC m).load ((rlC m).ser v ++ [7, 9])
+                          return (decide (v' = v), r, (rlC m).size v)) = ok (true, [7, 9], 12) := by
+  intro m; cases m <;> decide +kernel
 
 end Sds.C06
